@@ -93,17 +93,31 @@ def tla_set(xs):
     return "{" + ", ".join('"%s"' % x for x in xs) + "}"
 
 
-def gen_programs(ctx, n, depth, ops, seed, tag, extra=None):
-    """TLC simulation over PithosGen: n random walks of `depth` calls each."""
+def gen_programs(ctx, n, depth, ops, seed, tag, extra=None, pool=None):
+    """TLC simulation over PithosGen: a pool of random walks of `depth` calls each, from which n programs are
+    selected greedily so that they cover as many distinct SITUATIONS (operation x condition x version-id kind x
+    versioning state x what is current x outcome, computed by TLC on the model) as possible."""
     subst = {"Ops": tla_set(ops), "GenDepth": str(depth)}
     subst.update(extra or {})
-    r = ctx.tlc("PithosGen", "Pithos.Gen.cfg", workers=1, simulate="num=%d" % n, depth=depth + 1, seed=seed, timeout=600,
+    pool = pool or max(n * 12, 300)
+    r = ctx.tlc("PithosGen", "Pithos.Gen.cfg", workers=1, simulate="num=%d" % pool, depth=depth + 1, seed=seed, timeout=900,
                 count_mc=False, subst=subst)
-    progs = [p for p in r.printed if isinstance(p, list)]
+    progs = [p for p in r.printed if isinstance(p, dict) and "calls" in p]
     if len(progs) < n:
         raise vlib.Infra("program generation produced %d of %d programs (%s)\n%s" % (len(progs), n, r.outcome, r.output[-2000:]))
     ctx.transitions += r.generated
-    return progs[:n]
+    sets = [set(json.dumps(x) for x in p["sits"]) for p in progs]
+    covered, chosen, left = set(), [], set(range(len(progs)))
+    while len(chosen) < n and left:
+        best = max(left, key=lambda i: (len(sets[i] - covered), -i))
+        chosen.append(best)
+        covered |= sets[best]
+        left.discard(best)
+    allsits = set().union(*sets)
+    st = ctx.extra.setdefault("situation_coverage", {})
+    st[tag] = {"pool_programs": len(progs), "selected": len(chosen), "situations_in_pool": len(allsits),
+               "situations_covered_by_selection": len(covered)}
+    return [progs[i]["calls"] for i in chosen]
 
 
 # per deviation tag: the operations and alphabets among which TLC searches (breadth first) for the
